@@ -140,6 +140,16 @@ def main():
                     out.append({"tag": step.get("tag"), "hash": tree_hash(d)[0], "files": tree_hash(d)[1], "per_file": file_hashes(d), "canon": canonical_ode(d)})
                 except Exception as e:
                     out.append({"tag": step.get("tag"), "error": f"{type(e).__name__}: {e}"[:300]})
+            elif op == "to_code":
+                # the network's own entry point (`Network.to_code`), as a script would call it
+                solver, method, device = step["backend"]
+                d = root / f"t{n}"
+                d.mkdir()
+                try:
+                    nets[step["id"]].to_code(solver=solver, method=method, device=device, path=d)
+                    out.append({"tag": step.get("tag"), "hash": tree_hash(d)[0], "files": tree_hash(d)[1], "per_file": file_hashes(d), "canon": canonical_ode(d)})
+                except Exception as e:
+                    out.append({"tag": step.get("tag"), "error": f"{type(e).__name__}: {e}"[:300]})
             elif op == "patch":
                 # the host-code patch of the network (`naunet render --patch enzo` does this after the sources were rendered)
                 from naunet.patches import EnzoPatch
@@ -172,7 +182,7 @@ def main():
                     d = Path(step["dir"])
                     nets[step["id"]].export(d.name, solver=step["backend"][0], method=step["backend"][1], device=step["backend"][2],
                                             prefix=str(d.parent), overwrite=True)
-                    out.append({"tag": step.get("tag"), "hash": tree_hash(d)[0], "per_file": file_hashes(d),
+                    out.append({"tag": step.get("tag"), "hash": tree_hash(d)[0], "per_file": file_hashes(d), "canon": canonical_ode(d),
                                 "toml": (d / "naunet_config.toml").read_text()})
                 except BaseException as e:
                     out.append({"tag": step.get("tag"), "error": f"{type(e).__name__}: {e}"[:300]})
